@@ -98,6 +98,25 @@ def obligations(tier, seed):
     combos = [("call",), ("call", "call"), ("call", "pending_sub"), ("call", "active_sub"), ("pending_sub", "active_sub")]
     if tier == "thorough":
         combos = [c for n in (1, 2, 3) for c in itertools.product(kinds_all, repeat=n)]
+    out += route_obligations(core, combos)
+    out += _id_range_kernel(core)
+    out += _insert_before_send(core)
+    out += batch_id_obligations(core)
+    from . import C05 as _c05, C12 as _c12
+    for r in _c05.array_obligations(core, (2,) if tier == "quick" else (2, 3), skip_scenario="c03_mixed_frame"):
+        if r["name"].endswith(":none-skipped"):
+            out.append(r)
+    for r in _c12.ws_front_obligations(core, (2,) if tier == "quick" else (2, 3)):
+        out.append(r)
+    for r in _c12.ws_backend_obligations(core, [(2, 2), (3, 2)] if tier == "quick" else [(2, 2), (3, 2), (2, 3), (3, 3)]):
+        if r.get("name", "").endswith(":positional"):
+            out.append(r)
+    return out
+
+
+def route_obligations(core, combos):
+    """(also part of C09: a pending subscribe must be answered on its own channel whatever the server sends - a channel dropped silently leaves the caller waiting beyond its timeout)"""
+    out = []
     for kinds in combos:
         d, viol, reach, ab, panics, inv_viol = _route_step(core, kinds)
         name = "route:" + "+".join(kinds)
@@ -116,25 +135,12 @@ def obligations(tier, seed):
                                  "a pending subscribe is answered on its own channel; the reserved unsubscribe slot swallows its ack; an id matching nothing pending (or an active "
                                  "subscription) completes nothing and is reported as an error",
                             bounds=f"table built by real operations: {', '.join(kinds)}; all ids any pairwise-different u64; response id any u64",
-                            keydetail="routing", **common))
+                            keydetail="routing", replay=dict(scenario="c03_subid_collision" if "pending_sub" in kinds else "c03_fast_reply", vars={}, fixed={}, region=z3.BoolVal(True)), **common))
         out.append(R.decide(name + ":no-panic", "kernel", z3.Or(*panics) if panics else z3.BoolVal(False), rs, desc="no panic in the routing step", bounds="as above", keydetail="panic", **common))
         out.append(R.decide(name + ":index-invariant", "kernel", z3.Or(*inv_viol) if inv_viol else z3.BoolVal(False), rs,
                             desc="after the step the reverse index (subscription id -> request id) and the active subscriptions still correspond one to one - "
                                  "also when the server hands out a subscription id that is already in use", bounds="as above; server-chosen subscription ids arbitrary (may collide)",
                             keydetail="index-invariant", replay=dict(scenario="c03_subid_collision", vars={}, fixed={}, region=z3.BoolVal(True)), **common))
-    out += _id_range_kernel(core)
-    out += _insert_before_send(core)
-    # responses inside array frames (next to notifications) and the entries of a batch are calls too
-    out += batch_id_obligations(core)
-    from . import C05 as _c05, C12 as _c12
-    for r in _c05.array_obligations(core, (2,) if tier == "quick" else (2, 3), skip_scenario="c03_mixed_frame"):
-        if r["name"].endswith(":none-skipped"):
-            out.append(r)
-    for r in _c12.ws_front_obligations(core, (2,) if tier == "quick" else (2, 3)):
-        out.append(r)
-    for r in _c12.ws_backend_obligations(core, [(2, 2), (3, 2)] if tier == "quick" else [(2, 2), (3, 2), (2, 3), (3, 3)]):
-        if r.get("name", "").endswith(":positional"):
-            out.append(r)
     return out
 
 
